@@ -460,11 +460,11 @@ def ntp_samples(rng, n):
 
 
 def ntp_module(name, rows, wk, ctrl):
-    """The generated constant module: literal rows Chk(k, wk, t, n, back, t2, n2, m, ref, back32), in groups.  Row 0 is the
+    """The generated constant module: literal rows Chk(k, wk, t, n, back, t2, n2, m, ref, back32, nref), in groups.  Row 0 is the
     negative control."""
     def row(k, e):
-        return "  /\\ Chk(%d, %s, %d, %d, %d, %d, %d, %d, %d, %d)" % (
-            k, "TRUE" if wk else "FALSE", e["t"], e["n"], e["back"], e["t2"], e["n2"], e["m"], e["ref"], e["back32"])
+        return "  /\\ Chk(%d, %s, %d, %d, %d, %d, %d, %d, %d, %d, %d)" % (
+            k, "TRUE" if wk else "FALSE", e["t"], e["n"], e["back"], e["t2"], e["n2"], e["m"], e["ref"], e["back32"], e["nref"])
     lines = ["---- MODULE %s ----" % name,
              "(* generated by checks/c20.py: samples recorded from internal/ntp; row 0 is a deliberately corrupted copy of",
              "   row 1 (negative control: Apalache must report it) *)",
